@@ -33,6 +33,7 @@ type Options struct {
 	World      bool
 	Sync       bool
 	Yield      bool
+	Conc       bool     // goroutines and channel operations of the rewritten code become tasks / polls of the scheduler (implied by Yield)
 	RenameMain string   // if set, func main of package main is renamed to this
 	Env        []string // extra environment for the go command
 	OnlyFiles  func(path string) bool
@@ -363,7 +364,7 @@ func rewriteFile(o Options, rep *Report, p *packages.Package, f *ast.File) (bool
 
 	// ---- T5: concurrency of the code under simulation (generated containers): goroutines it starts
 	// become tasks of the scheduler, channel operations that would block keep the task schedulable
-	if o.Yield {
+	if o.Yield || o.Conc {
 		if k := rewriteConcurrency(f, info); k > 0 {
 			rep.ConcRewrites += k
 			needSched = true
